@@ -3,12 +3,253 @@ C04 — constrained signomial relaxations bound the constrained minimum; the Lag
 Property theorems about `Model/Relax.lean`.
 -/
 import SageoptModel.Model.Relax
+import SageoptModel.Props.C13
+import SageoptModel.Lemmas.LagrIdent
+import SageoptModel.Lemmas.LagrExec
+import SageoptModel.Lemmas.LagrClean
 
 namespace Sageopt.Props.C04
-open Sageopt Sageopt.Sig Sageopt.Relax
+open Sageopt Sageopt.Sig Sageopt.Relax Sageopt.Props.C13
 
 /-- with q = 1 (or no constraints) the folded list is the list itself -/
 theorem qFold_one (n : Nat) (cons : List SigQ) : qFold n cons 1 = cons := by
   simp [qFold]
+
+/-- substitute values for the variables in every coefficient, and evaluate against a grid character -/
+def evalσ (χ : Exp → Rat) (σ : Nat → Rat) (f : SigL) : Rat := eval χ (mapσ σ f).terms
+
+/-- `combinations_with_replacement`: every enumerated multiset has the requested size and only members of `xs` -/
+theorem combsWithRep_spec {α : Type} (k : Nat) (xs : List α) :
+    ∀ comb ∈ combsWithRep k xs, comb.length = k ∧ ∀ g ∈ comb, g ∈ xs :=
+  lg_combsWithRep_spec k xs
+
+/-- Q-FOLD SOUNDNESS: every folded constraint is a product of at least one and at most q members of the input
+    list — so it is ≥ 0 (resp. = 0) wherever all input constraints are -/
+theorem qfold_sound (n : Nat) (χ : Exp → Rat) (hχ : IsGridChar n χ) (cons : List SigQ)
+    (hc : ∀ g ∈ cons, Wf g ∧ g.n = n) (q : Nat) (hq : 1 ≤ q) :
+    ∀ pr ∈ qFold n cons q, ∃ comb : List SigQ, comb ≠ [] ∧ comb.length ≤ q ∧ (∀ g ∈ comb, g ∈ cons) ∧
+      eval χ pr.terms = (comb.map fun g => eval χ g.terms).prod := by
+  intro pr hpr
+  obtain ⟨g, gs, hlen, hmem, rfl⟩ := lg_mem_qFold n cons q hq pr hpr
+  refine ⟨g :: gs, by simp, hlen, hmem, ?_⟩
+  obtain ⟨_, _, h3⟩ := lg_foldl_mulQ n χ hχ gs
+    (fun x hx => hc x (hmem x (List.mem_cons_of_mem _ hx))) g (hc g (hmem g (by simp))).1
+    (hc g (hmem g (by simp))).2
+  rw [h3, List.map_cons, List.prod_cons]
+
+/-- well-formedness of the multiplier id lists: one list of ids per folded constraint, each as long as alpha_hat -/
+def IdsOk (lg : Lagrangian) (sIds zIds : List (List Nat)) : Prop :=
+  sIds.length = lg.gts.length ∧ zIds.length = lg.eqs.length ∧
+  (∀ ids ∈ sIds ++ zIds, ids.length = lg.alphaHat.length)
+
+/-- `hierarchy_e_k` returns distinct rows on the grid, of the right width -/
+theorem hierarchyEk_wf (n : Nat) (alphas : List (List Exp)) (hw : ∀ a ∈ alphas, ∀ r ∈ a, r.length = n ∧ OnGrid r) (k : Nat) :
+    (hierarchyEk n alphas k).Nodup ∧ ∀ r ∈ hierarchyEk n alphas k, r.length = n ∧ OnGrid r :=
+  lg_hierarchyEk_wf n alphas hw k
+
+/-- the multiplier with coefficient ids `ids` evaluates to `Σ_k σ(ids_k)·χ(alpha_hat_k)` -/
+theorem varSig_eval (n : Nat) (alphaHat : List Exp) (hnd : alphaHat.Nodup) (hgrid : ∀ r ∈ alphaHat, OnGrid r ∧ r.length = n)
+    (ids : List Nat) (hl : ids.length = alphaHat.length) (χ : Exp → Rat) (σ : Nat → Rat) :
+    evalσ χ σ (varSig n alphaHat ids) = (List.zipWith (fun id a => σ id * χ a) ids alphaHat).sum :=
+  lg_varSig_eval n alphaHat hnd (fun r hr => (hgrid r hr).1) ids hl χ σ
+
+/-- the rows `make_sig_lagrangian` feeds to `hierarchy_e_k` have the right width and are on the grid -/
+theorem alphaHat_rows (f : SigQ) (gts eqs : List SigQ)
+    (hg : ∀ g ∈ gts ++ eqs, Wf g ∧ g.n = f.n) (L0 : SigL) (hL0 : Wf L0 ∧ L0.n = f.n) :
+    ∀ a ∈ [keys L0.terms] ++ gts.map (fun g => keys g.terms) ++ eqs.map (fun g => keys g.terms),
+      ∀ r ∈ a, r.length = f.n ∧ OnGrid r := by
+  have hk : ∀ (C : Type) (h : SigT C), Wf h ∧ h.n = f.n → ∀ r ∈ keys h.terms, r.length = f.n ∧ OnGrid r := by
+    intro C h hh r hr
+    obtain ⟨t, ht, rfl⟩ := List.mem_map.1 hr
+    exact ⟨by rw [hh.1.width t ht, hh.2], hh.1.grid t ht⟩
+  intro a ha
+  simp only [List.mem_append, List.mem_singleton, List.mem_map] at ha
+  rcases ha with (rfl | ⟨g, hgm, rfl⟩) | ⟨g, hgm, rfl⟩
+  · exact hk _ L0 hL0
+  · exact hk _ g (hg g (List.mem_append_left _ hgm))
+  · exact hk _ g (hg g (List.mem_append_right _ hgm))
+
+/-- THE LAGRANGIAN IDENTITY: for all f, gts, eqs, p, q and EVERY assignment σ of γ and of the multiplier
+    coefficients, as functions (against every grid character χ, e.g. evaluation at a point):
+      L = f − γ − Σ_{(s,g)} s·g − Σ_{(z,h)} z·h
+    over exactly the folded constraints the builder returns -/
+theorem lagrangian_identity (f : SigQ) (hf : Wf f) (gts eqs : List SigQ)
+    (hg : ∀ g ∈ gts ++ eqs, Wf g ∧ g.n = f.n) (p q : Nat) (hq : 1 ≤ q) (gammaId : Nat) (sIds zIds : List (List Nat))
+    (χ : Exp → Rat) (hχ : IsGridChar f.n χ) (σ : Nat → Rat) :
+    let lg := makeLagrangian f gts eqs p q gammaId sIds zIds
+    IdsOk lg sIds zIds →
+    evalσ χ σ lg.L =
+      eval χ f.terms - σ gammaId
+        - ((lg.gts.zip sIds).map fun pr => evalσ χ σ (varSig f.n lg.alphaHat pr.2) * eval χ pr.1.terms).sum
+        - ((lg.eqs.zip zIds).map fun pr => evalσ χ σ (varSig f.n lg.alphaHat pr.2) * eval χ pr.1.terms).sum := by
+  intro lg _
+  obtain ⟨hL0w, hL0n, hL0e⟩ := lg_L0 f hf χ hχ σ gammaId
+  have hrows := (hierarchyEk_wf f.n _ (alphaHat_rows f gts eqs hg _ ⟨hL0w, hL0n⟩) p).2
+  have hfg := lg_qFold_wf f.n gts (fun g h => hg g (List.mem_append_left _ h)) q hq
+  have hfe := lg_qFold_wf f.n eqs (fun g h => hg g (List.mem_append_right _ h)) q hq
+  have hsum := lg_sum_identity f.n χ σ _ ⟨hL0w, hL0n⟩
+    (fun pr : SigQ × List Nat =>
+      okOr (mul Lin.isZero (embed (neg isZeroQ pr.1)) (varSig f.n lg.alphaHat pr.2)) (embed pr.1))
+    (fun pr => evalσ χ σ (varSig f.n lg.alphaHat pr.2) * eval χ pr.1.terms)
+    (lg.gts.zip sIds) (lg.eqs.zip zIds)
+    (fun pr hpr => by
+      obtain ⟨h1, h2⟩ := hfg pr.1 (List.of_mem_zip hpr).1
+      obtain ⟨a, b, c⟩ := lg_summand f.n χ hχ σ pr.1 h1 h2 lg.alphaHat (fun r hr => (hrows r hr).1) pr.2
+      exact ⟨⟨a, b⟩, c⟩)
+    (fun pr hpr => by
+      obtain ⟨h1, h2⟩ := hfe pr.1 (List.of_mem_zip hpr).1
+      obtain ⟨a, b, c⟩ := lg_summand f.n χ hχ σ pr.1 h1 h2 lg.alphaHat (fun r hr => (hrows r hr).1) pr.2
+      exact ⟨⟨a, b⟩, c⟩)
+  rw [hL0e] at hsum
+  exact hsum
+
+/-- the `okOr` fallbacks of `makeLagrangian` are never taken: neither `f − γ` nor any product `−g · s_g`
+    over the folded constraints raises (all operands have `f.n` variables) -/
+theorem lagrangian_no_fallback (f : SigQ) (gts eqs : List SigQ)
+    (hg : ∀ g ∈ gts ++ eqs, Wf g ∧ g.n = f.n) (p q : Nat) (hq : 1 ≤ q) (gammaId : Nat) (sIds zIds : List (List Nat)) :
+    let lg := makeLagrangian f gts eqs p q gammaId sIds zIds
+    (∃ L0, add Lin.isZero (embed f) (const f.n (Lin.scale (-1) (Lin.var gammaId))) = .ok L0) ∧
+    ∀ g ∈ lg.gts ++ lg.eqs, ∀ ids : List Nat,
+      ∃ h, mul Lin.isZero (embed (neg isZeroQ g)) (varSig f.n lg.alphaHat ids) = .ok h := by
+  intro lg
+  refine ⟨⟨_, lg_add_ok f _⟩, ?_⟩
+  intro g hgm ids
+  have hfg := lg_qFold_wf f.n gts (fun g h => hg g (List.mem_append_left _ h)) q hq
+  have hfe := lg_qFold_wf f.n eqs (fun g h => hg g (List.mem_append_right _ h)) q hq
+  have hgn : g.n = f.n := by
+    rcases List.mem_append.1 hgm with h | h
+    · exact (hfg g h).2
+    · exact (hfe g h).2
+  exact ⟨_, lg_mul_ok f.n g hgn _ ids⟩
+
+/-- the Lagrangian is never poisoned: every coefficient product formed has a constant (numeric) factor,
+    i.e. the code's `ScalarExpression.__mul__` never rejects -/
+theorem lagrangian_clean (f : SigQ) (gts eqs : List SigQ)
+    (hg : ∀ g ∈ gts ++ eqs, Wf g ∧ g.n = f.n) (p q : Nat) (hq : 1 ≤ q) (gammaId : Nat) (sIds zIds : List (List Nat)) :
+    Clean (makeLagrangian f gts eqs p q gammaId sIds zIds).L := by
+  have hfg := lg_qFold_wf f.n gts (fun g h => hg g (List.mem_append_left _ h)) q hq
+  have hfe := lg_qFold_wf f.n eqs (fun g h => hg g (List.mem_append_right _ h)) q hq
+  unfold makeLagrangian
+  apply lg_cleanT_sumList
+  intro x hx
+  simp only [List.mem_append, List.mem_singleton, List.mem_map] at hx
+  rcases hx with (rfl | ⟨pr, hpr, rfl⟩) | ⟨pr, hpr, rfl⟩
+  · exact lg_L0_clean f gammaId
+  · exact lg_summand_clean f.n pr.1 (hfg pr.1 (List.of_mem_zip hpr).1).2 _ pr.2
+  · exact lg_summand_clean f.n pr.1 (hfe pr.1 (List.of_mem_zip hpr).1).2 _ pr.2
+
+/-! ### non-vacuity: `f = e^{2x} + 1`, one inequality `g = 3 − e^{x} ≥ 0`, `p = 0`, `q = 2`
+(concrete values are checked by `decide` on the executable model; core `Rat` operations and the
+well-founded `Lin.merge` are irreducible, hence `with_unfolding_all`; `combsWithRep` is compiled by
+well-founded recursion on a lexicographic measure, which does not reduce in the kernel, so `qFold` is
+first rewritten to its structurally recursive form `lg_qFoldS` by the theorem `lg_qFold_eq`) -/
+section NonVacuity
+
+@[instance_reducible] private def decEqSig {C : Type} [DecidableEq C] : DecidableEq (SigT C) := fun a b =>
+  match a, b with
+  | ⟨n1, t1⟩, ⟨n2, t2⟩ =>
+    if h : n1 = n2 ∧ t1 = t2 then isTrue (by rw [h.1, h.2])
+    else isFalse (fun e => h (by cases e; exact ⟨rfl, rfl⟩))
+
+attribute [local instance] decEqSig
+
+/-- `e^{2x} + 1` -/
+private def fEx : SigQ := ⟨1, [([2], 1), ([0], 1)]⟩
+/-- `3 − e^{x}` -/
+private def gEx : SigQ := ⟨1, [([0], 3), ([1], -1)]⟩
+/-- `g² = 9 − 6e^{x} + e^{2x}` -/
+private def g2Ex : SigQ := ⟨1, [([0], 9), ([1], -6), ([2], 1)]⟩
+/-- γ has id 0; the multipliers of `g` and `g²` have the single coefficients `x₁`, `x₂` -/
+private def lgEx : Lagrangian := makeLagrangian fEx [gEx] [] 0 2 0 [[1], [2]] []
+
+private theorem grid_of {ts : List (Exp × Rat)} (h : ∀ t ∈ ts, ∀ q ∈ t.1, round7 q = q) :
+    ∀ t ∈ ts, OnGrid t.1 := h
+
+private theorem fEx_wf : Wf fEx := ⟨by decide, grid_of (by with_unfolding_all decide), by decide⟩
+private theorem gEx_wf : Wf gEx := ⟨by decide, grid_of (by with_unfolding_all decide), by decide⟩
+
+-- the folded list has two members: `g` and `g²`
+private theorem qFoldEx : qFold 1 [gEx] 2 = [gEx, g2Ex] := by
+  rw [lg_qFold_eq]
+  with_unfolding_all decide
+
+private theorem qFoldEx' : qFold fEx.n [gEx] 2 = [gEx, g2Ex] := qFoldEx
+
+example : combsWithRep 2 [1, 2, 3] = [[1, 1], [1, 2], [1, 3], [2, 2], [2, 3], [3, 3]] := by
+  rw [lg_combs_eq]
+  decide
+example : ∀ comb ∈ combsWithRep 2 [1, 2, 3], comb.length = 2 ∧ ∀ g ∈ comb, g ∈ [1, 2, 3] :=
+  combsWithRep_spec 2 [1, 2, 3]
+
+-- a product that cancels to a single term is filtered out; repeated constraints are identified
+example : qFold 1 [⟨1, [([1], 1)]⟩, ⟨1, [([1], 1), ([0], 1)]⟩] 2 =
+    [⟨1, [([1], 1), ([0], 1)]⟩, ⟨1, [([2], 1), ([1], 1)]⟩, ⟨1, [([0], 1), ([1], 2), ([2], 1)]⟩] := by
+  rw [lg_qFold_eq]
+  with_unfolding_all decide
+example : qFold 1 [gEx, gEx] 2 = [gEx, g2Ex] := by
+  rw [lg_qFold_eq]
+  with_unfolding_all decide
+
+-- `g²` is the product of two members of the input list, against the non-trivial character `pow2Char`
+example : ∃ comb : List SigQ, comb ≠ [] ∧ comb.length ≤ 2 ∧ (∀ g ∈ comb, g ∈ [gEx]) ∧
+    eval pow2Char g2Ex.terms = (comb.map fun g => eval pow2Char g.terms).prod :=
+  qfold_sound 1 pow2Char (pow2Char_isGridChar 1) [gEx]
+    (by intro g hg; rw [List.mem_singleton] at hg; rw [hg]; exact ⟨gEx_wf, rfl⟩) 2 (by decide) g2Ex
+    (by rw [qFoldEx]; simp)
+
+-- `hierarchy_e_k`: p = 0 gives the single zero row; p = 1 the distinct rows of f − γ and g
+example : hierarchyEk 1 [[[2], [0]], [[0], [1]]] 0 = [[0]] := by with_unfolding_all decide
+example : hierarchyEk 1 [[[2], [0]], [[0], [1]]] 1 = [[0], [1], [2]] := by with_unfolding_all decide
+example : hierarchyEk 1 [[[2], [0]], [[0], [1]]] 2 = [[0], [1], [2], [3], [4]] := by with_unfolding_all decide
+
+-- the Lagrangian  L = (1 − x₂)·e^{2x} + (1 − γ − 3x₁ − 9x₂) + (x₁ + 6x₂)·e^{x}
+private theorem lgEx_L : lgEx.L = ⟨1, [([2], ⟨1, [(2, -1)], false⟩), ([0], ⟨1, [(0, -1), (1, -3), (2, -9)], false⟩),
+    ([1], ⟨0, [(1, 1), (2, 6)], false⟩)]⟩ := by
+  unfold lgEx makeLagrangian
+  simp only [qFoldEx', lg_qFold_eq fEx.n []]
+  with_unfolding_all decide
+private theorem lgEx_alphaHat : lgEx.alphaHat = [[0]] := by with_unfolding_all decide
+private theorem lgEx_gts : lgEx.gts = [gEx, g2Ex] := qFoldEx
+private theorem lgEx_eqs : lgEx.eqs = [] := by
+  show qFold 1 [] 2 = []
+  rw [lg_qFold_eq]
+  decide
+
+private theorem idsOkEx : IdsOk lgEx [[1], [2]] [] := by
+  unfold IdsOk
+  rw [lgEx_gts, lgEx_eqs, lgEx_alphaHat]
+  decide
+
+example : Clean lgEx.L := by
+  rw [lgEx_L]
+  unfold Clean
+  decide
+example : Clean lgEx.L :=
+  lagrangian_clean fEx [gEx] []
+    (by intro g hg; simp only [List.append_nil, List.mem_singleton] at hg; rw [hg]; exact ⟨gEx_wf, rfl⟩)
+    0 2 (by decide) 0 [[1], [2]] []
+
+-- the identity for this instance, for every assignment σ, against the non-trivial character `pow2Char`
+example (σ : Nat → Rat) :
+    evalσ pow2Char σ lgEx.L =
+      eval pow2Char fEx.terms - σ 0
+        - ((lgEx.gts.zip [[1], [2]]).map fun pr =>
+            evalσ pow2Char σ (varSig 1 lgEx.alphaHat pr.2) * eval pow2Char pr.1.terms).sum
+        - ((lgEx.eqs.zip ([] : List (List Nat))).map fun pr =>
+            evalσ pow2Char σ (varSig 1 lgEx.alphaHat pr.2) * eval pow2Char pr.1.terms).sum :=
+  lagrangian_identity fEx fEx_wf [gEx] []
+    (by intro g hg; simp only [List.append_nil, List.mem_singleton] at hg; rw [hg]; exact ⟨gEx_wf, rfl⟩)
+    0 2 (by decide) 0 [[1], [2]] [] pow2Char (pow2Char_isGridChar 1) σ idsOkEx
+
+-- the multiplier of `g` is the constant `x₁` (alpha_hat is the zero row)
+example (σ : Nat → Rat) : evalσ pow2Char σ (varSig 1 [[0]] [1]) = σ 1 := by
+  rw [varSig_eval 1 [[0]] (by simp) (by
+    intro r hr
+    rw [List.mem_singleton] at hr
+    rw [hr]
+    exact ⟨onGrid_zeroExp 1, rfl⟩) [1] rfl]
+  simp [pow2Char]
+
+end NonVacuity
 
 end Sageopt.Props.C04
